@@ -38,16 +38,19 @@ func typecheckFunctionsAndProcesses(processes []*Process, assumedFreeNames []Nam
 	// Start with some preliminary check on the labelled types
 	if err := preliminaryTypesDefinitionsChecks(globalEnv); err != nil {
 		errorChan <- err
+		return
 	}
 
 	// Check that function definitions are well formed
 	if err := preliminaryFunctionDefinitionsChecks(globalEnv); err != nil {
 		errorChan <- err
+		return
 	}
 
 	// Check that processes are well formed
 	if err := preliminaryProcessesChecks(processes, assumedFreeNames, globalEnv); err != nil {
 		errorChan <- err
+		return
 	}
 
 	globalEnv.log(LOGRULEDETAILS, "Preliminary checks ok")
@@ -59,6 +62,7 @@ func typecheckFunctionsAndProcesses(processes []*Process, assumedFreeNames []Nam
 	// Typecheck function definitions
 	if err := typecheckFunctionDefinitions(globalEnv); err != nil {
 		errorChan <- err
+		return
 	}
 
 	globalEnv.log(LOGRULEDETAILS, "Function declarations typecheck ok")
@@ -66,6 +70,7 @@ func typecheckFunctionsAndProcesses(processes []*Process, assumedFreeNames []Nam
 	// Typecheck process definitions
 	if err := typecheckProcesses(processes, assumedFreeNames, globalEnv); err != nil {
 		errorChan <- err
+		return
 	}
 
 	globalEnv.log(LOGRULEDETAILS, "Process declarations typecheck ok")
